@@ -3,6 +3,7 @@
 REGISTRY = {
     "C01": "harness.c01_reliable",
     "C02": "harness.c02_drain",
+    "C03": "harness.c03_negotiation",
     "C05": "harness.c05_nocrash",
     "C06": "harness.c06_partial",
     "C07": "harness.c07_rtp",
